@@ -11,7 +11,7 @@ META = {
     "note": "Universe: repository fixtures x 3 configurations + 2 input variants + generated micro designs. Known findings of the unchanged tree are listed in known_findings.json by (rule, file, configuration, variant).",
 }
 
-DEDUCTIVE = []
+DEDUCTIVE = ['vsg.rule_list.rule_list.check_rules', 'vsg.rule.Rule.add_violation', 'vsg.violation.New.has_code_tag', 'vsg.rule_list.rule_list.get_rules_in_phase', 'vsg.rule_list.rule_list.get_rules_in_subphase', 'vsg.rule_list.filter_out_disabled_rules']
 
 
 def run():
